@@ -17,7 +17,7 @@ PLANS = {
     ),
     'C02': dict(
         oracle='C02', level='exploration',
-        profiles=[('core', 2), ('hier', 3)], curated=[], configs=ALLCFG,
+        profiles=[('core', 2), ('hier', 3), ('policy_before', 1)], curated=[], configs=ALLCFG,
         cp=dict(max_ops=25, kinds=['P', 'P', 'P', 'P', 'T'], final_stop=True), examples=(300, 3000), floor=(150, 1500),
         rule='Generated histories (start/process_event/stop+restart) on core/hier machines; oracle: per root region the '
              'exit/action/entry token sequence and the active configuration after each operation equal the reference model '
